@@ -401,7 +401,7 @@ def structural(tid, name, kidx, backend="plotly"):
             coll.rotate(mat_to_rot(kappa.RG.as_matrix() @ np.array(RZ, float) @ kappa.RG.inv().as_matrix()), anchor=kappa.pos((0, 0, 0)))
             for n in meta:
                 meta[n]["path"] = lattice_path_of(objs[n], kappa)
-    elif name in ("animation", "animation_slider"):
+    elif name in ("animation", "animation_slider", "animation_noslider"):
         a = add("a", "Cuboid", G_CUB, P3, bare=True)
         b = add("b", "Cylinder", G_CYL, P2, bare=True)
         s = add("s", "Sensor", G_NONE, P1)
@@ -410,6 +410,8 @@ def structural(tid, name, kidx, backend="plotly"):
         if name == "animation_slider":
             kw["animation_slider"] = True
             kw["animation"] = 2
+        if name == "animation_noslider":          # the documented switch in its other position: an animation without the slider
+            kw["animation_slider"] = False
         args = [a, b, s]
     elif name in ("subplots_rowcol", "subplots_dict"):
         a = add("a", "Cuboid", G_CUB, P3, bare=True, rc=(1, 1))
@@ -515,7 +517,7 @@ def structural(tid, name, kidx, backend="plotly"):
 
 STRUCT = ["collection", "nested", "collection_moved", "animation", "animation_slider", "subplots_rowcol", "subplots_dict", "style_kwargs",
           "path_hidden", "pending_style", "markers_zoom", "mesh_unchecked", "extra_model3d", "mesh_disconnected", "subplots_same_object",
-          "animation_downsampled"]
+          "animation_downsampled", "animation_noslider"]
 
 
 def worker(args):
